@@ -138,10 +138,16 @@ def scenarios(ctx: Ctx):
         b = adversarial(ctx.rng)
         b["cfg"].update({"kind": a["cfg"]["kind"], "plural": "widgets", "namespaced": a["cfg"]["namespaced"]})
         b["lookup"] = None
-        how = ctx.rng.choice(["version", "version", "name", "ns"])
+        how = ctx.rng.choice(["version", "version", "name", "ns", "groupless", "groupless", "grouped"])
         b["name"] = list(a["name"])
         if how == "version":
             b["cfg"]["version"] = "example.dev/v2"
+        elif how == "groupless":
+            # a core-style apiVersion without a group next to the same kind / version of a group
+            # (kr8s matches 'v1' against every group's v1): each keeps its own apiVersion
+            b["cfg"]["version"] = "v1"
+        elif how == "grouped":
+            a["cfg"]["version"], b["cfg"]["version"] = "v1", "other.example.dev/v1"
         elif how == "name":
             b["name"][1] = "another"
         elif b["name"][2] is not None:
@@ -165,6 +171,64 @@ def run_one(ctx: Ctx, sc):
         ctx.fail(Failure(signature=sig, what=what, case=sc,
                          observed={"outcome": o["outcome"], "calls": [{k: v for k, v in c.items() if k != "body"} for c in o["calls"]]}))
     return o
+
+
+def exotic_key_cases(ctx: Ctx):
+    """computed maps that are NOT JSON: a CEL bytes key becomes its base64 text when the object is converted for
+    the API, and the bytes below are the base64 decodings of 'name', 'kind' and 'metadata' - they must not
+    replace the pinned identity.  Oracle only (the Json model has string keys)."""
+    import drivers, vloop
+    from cluster import Cluster
+    name_b, kind_b, meta_b = "b'\\x9d\\xa9\\x9e'", "b'\\x92\\x29\\xdd'", "b'\\x99\\xeb\\x5a\\x75\\xab\\x5a'"
+    docs = {
+        "metadata: name then bytes": {"metadata": "={'name': 'x', %s: 'evil'}" % name_b, "spec": {"a": 1}},
+        "metadata: bytes then name": {"metadata": "={%s: 'evil', 'name': 'x'}" % name_b, "spec": {"a": 1}},
+        "labels only (control)": {"metadata": "={'labels': {%s: 'v'}}" % name_b},
+    }
+    overlays = {
+        "overlay sets metadata with a bytes key": [{"overlay": {"metadata": "={%s: 'evil'}" % name_b}}],
+        "overlay computes metadata.labels (control)": [{"overlay": {"metadata": {"labels": "={'a': 'b'}"}}}],
+    }
+
+    async def go(spec, kind):
+        from koreo.resource_function.prepare import prepare_resource_function
+        prepared = await prepare_resource_function("fn-exotic", spec)
+        fn, err = drivers.unwrap_prepared(prepared)
+        if fn is None:
+            return None
+        cl = Cluster()
+        await drivers.reconcile_rf(fn, {}, cl, owner=(None, {"apiVersion": "v1", "kind": "P", "name": "p", "uid": "u"}))
+        return [c for c in cl.calls]
+
+    todo = [(k, {"resource": d}) for k, d in docs.items()] + \
+           [(k, {"resource": {"spec": {"a": 1}}, "overlays": o}) for k, o in overlays.items()] + \
+           [("create overlay with a bytes key", {"resource": {"spec": {"a": 1}},
+                                                  "create": {"overlay": {"metadata": "={%s: 'evil'}" % name_b}}})]
+    for label, extra in todo:
+        kind = f"Wx{next(m._kind_counter)}"
+        api = {"apiVersion": "example.dev/v1", "kind": kind, "plural": "widgets", "name": "x", "namespace": "ns1", "owned": False}
+        drivers.reset_all()
+        try:
+            calls = vloop.run(go({"apiConfig": api, **extra}, kind))[0]
+        except Exception as e:      # a crash is C10 / C20 business; identity is what is judged here
+            ctx.count("exotic-keys:raised:" + type(e).__name__)
+            continue
+        finally:
+            drivers.reset_all()
+        if calls is None:
+            ctx.count("exotic-keys:prepare_failed")
+            continue
+        ctx.count("exotic-keys:run")
+        ctx.note_case({"exotic": label}, nontrivial=True, key="exotic|" + label)
+        for c in calls:
+            body = c.get("body")
+            if c["method"] in ("POST", "PATCH") and isinstance(body, dict):
+                md = body.get("metadata") if isinstance(body.get("metadata"), dict) else {}
+                got = (body.get("apiVersion"), body.get("kind"), md.get("name"), md.get("namespace"), c.get("name"))
+                want = ("example.dev/v1", kind, "x", "ns1", "x")
+                if got != want:
+                    ctx.fail(Failure(signature="non-JSON computed map (bytes key) redirects the object's identity",
+                                     what=f"{label}: sent {got}, apiConfig gives {want}", case={"exotic": label, "spec": extra}))
 
 
 def concurrent_pairs(ctx: Ctx, cases, terms):
@@ -217,12 +281,16 @@ def run(ctx: Ctx):
         cases.append(sc)
         terms.append(m.c_case(sc, o))
     concurrent_pairs(ctx, cases, terms)
+    exotic_key_cases(ctx)
     if ctx.model_ok:
         ctx.correspond("reconcile_resource_function vs ResourceFn.reconcile_rf", "Corr_RF", cases, terms)
 
 
 def replay(ctx: Ctx, data):
     sc = data["case"] if "case" in data else data
+    if "exotic" in sc:
+        exotic_key_cases(ctx)
+        return
     if "concurrent" in sc and isinstance(sc["concurrent"], list):
         a, b = sc["concurrent"]
         obs = m.run_concurrent([a, b], sc["latencies"])
